@@ -642,9 +642,56 @@ def run(model, rep):
     rule_i(model, rep)
     rule_j(model, rep)
     rule_k(model, rep, table)
+    rule_sha_field_languages(model, rep, table)
     c04.rule_f(model, Renamed(rep, {"C04.f": "C20.g-libpass-context"}))
     c12.rule_copies(model, Renamed(rep, {"C12.g": "C20.h-libpass-copies"}))
     # the libpass pbkdf2 hashers read and write salt / digest through libpass' own copies of the base64 helpers: both families agree
     # only while those copies decode what passlib's encode
     c12.rule_alphabets(model, Renamed(rep, {"C12.f": "C20.l-b64-helpers", "C12.e": "C20.l-codec-alphabets"}, only=lambda s: s.startswith("libpass")))
     rep.minimum("C20.l-b64-helpers", 8)
+
+
+def rule_sha_field_languages(model, rep, table):
+    """the libpass sha-crypt record regexes admit, field by field, what passlib's handlers admit: a cost of 1000..999999999 without padding, a
+    salt of 1..16 characters of the hash64 alphabet -- and hash() refuses an explicit salt the record regex would not read back"""
+    from pv.lang import group_dfa
+    from pv.identify import fold_regex
+    R = "C20.k-cost-window"
+    RS = "C20.d-hash-verify-agreement"
+    I = "libpass.inspect.sha_crypt"
+    unit = model.unit(I)
+    n = 0
+    for cname in ("SHA256CryptInfo", "SHA512CryptInfo"):
+        node = model.cls(I, cname)
+        rx = [a.value for a in node.body if isinstance(a, ast.Assign) and ast.unparse(a.targets[0]) == "REGEX"]
+        if not rx or not isinstance(rx[0], ast.Call):
+            rep.undecided(R, site(I, cname), "REGEX not found")
+            continue
+        try:
+            pat, flags = fold_regex(model, unit, rx[0], cls=(I, cname))
+        except Exception as e:
+            rep.undecided(R, site(I, cname), f"REGEX does not fold: {e}")
+            continue
+        n += 1
+        dr, ds = group_dfa(pat, flags, "rounds"), group_dfa(pat, flags, "salt")
+        acc = {w: dr.accepts(w) for w in ("1", "999", "0999", "1000", "5000", "999999999", "1000000000", "01000")}
+        want = {"1": False, "999": False, "0999": False, "1000": True, "5000": True, "999999999": True, "1000000000": False, "01000": False}
+        bad = sorted(w for w in want if acc[w] != want[w])
+        rep.check(not bad, R, site(I, cname) + " rounds field", f"rounds group decides {bad} differently from the 1000..999999999 window" if bad else "rounds group = 1000..999999999, unpadded",
+                  "the rounds field of a record is a cost the format allows (passlib: min_rounds=1000, max_rounds=999999999)",
+                  witness="SHA256Hasher(rounds=1000).verify('$5$rounds=1$salt$<digest of a 1-round computation>', pw) is True and identify() is True; passlib refuses the string (rounds too low)")
+        ok_s = all(ds.accepts(w) for w in ("a", "./09AZaz", "abcdefghijklmnop")) and not any(ds.accepts(w) for w in ("", "a b", "a:b", "pepper!", "sält", "line\nbreak", "abcdefghijklmnopq"))
+        rep.check(ok_s, RS, site(I, cname) + " salt field", "salt group = [./0-9A-Za-z]{1,16}" if ok_s else "salt group admits characters outside ./0-9A-Za-z (or another length)",
+                  "the salt field of a record is 1..16 characters of the hash64 alphabet, as passlib's sha256_crypt / sha512_crypt require",
+                  witness="SHA256Hasher().hash('pw', salt='my salt') is verified by libpass and refused by passlib ('invalid characters in sha256_crypt salt')")
+    # hash(): an explicit salt is checked against the same language
+    LS_ = "libpass.hashers.sha_crypt"
+    fn = model.func(LS_, "_ShaHasher.hash")
+    guards = [g for g in walk_no_nested(fn) if isinstance(g, ast.If) and g.body and isinstance(g.body[-1], ast.Raise) and "ValueError" in ast.unparse(g.body[-1]) and "salt" in ast.unparse(g.test)]
+    chars = any(isinstance(c, ast.Call) and isinstance(c.func, ast.Attribute) and c.func.attr in ("fullmatch", "issubset", "issuperset", "translate", "strip") for g in guards for c in ast.walk(g.test)) or \
+        any(isinstance(c, ast.Compare) and any(isinstance(o, (ast.In, ast.NotIn)) for o in c.ops) and "CHARS" in ast.unparse(c) for g in guards for c in ast.walk(g.test))
+    rep.check(bool(guards) and chars, RS, site(LS_, "_ShaHasher.hash") + " explicit salt", "; ".join(ast.unparse(g.test) for g in guards)[:160] or "<no guard>",
+              "hash() refuses an explicit salt with characters outside the hash64 alphabet (its own record regex and passlib would not read the result back)",
+              witness="SHA512Hasher().hash('pw', salt=b'line\\nbreak') returns a string with a newline in the salt field")
+    if n < 2:
+        rep.undecided(R, "<instance-count>", "sha-crypt record regexes not analysed")
